@@ -6,7 +6,7 @@
 ;     comparison; as a right operand it counts as a comparison; any following operator takes it whole (as a left
 ;     operand it counts as atomic);
 ;   a sign binds tighter than any binary operator and looser than indexing and calls: its operand is primary.
-(module-uses consts spanof perr)
+(module-uses consts height spanof perr walk)
 (define-fun leftPrec ((e Node)) Int (ite ((_ is mk_BinaryExpr) e) (opPrec (BinaryExpr.Op e)) 9))
 (define-fun rightPrec ((e Node)) Int (ite ((_ is mk_BinaryExpr) e) (opPrec (BinaryExpr.Op e)) (ite ((_ is mk_InExpr) e) 2 9)))
 (define-fun primaryShape ((e Node)) Bool (not (or ((_ is mk_BinaryExpr) e) ((_ is mk_InExpr) e) ((_ is mk_UnaryExpr) e))))
@@ -20,5 +20,9 @@
        (=> ((_ is mk_IndexExpr) n) (primaryShape (IndexExpr.X n)))))
 (declare-deep shapeOK shapeOKList shapeLocal)
 ; what the parser delivers about every node: Span() is safe on it and it has the prescribed shape
-(define-fun nodeOK ((n Node)) Bool (and (spanSafe n) (shapeOK n)))
-(define-fun nodeOKList ((l Seq_Node) (n Int)) Bool (and (spanSafeList l n) (shapeOKList l n)))
+; ... and Walk can traverse it (walkWF: every mandatory child is present; the precondition of C11)
+(define-fun nodeOK ((n Node)) Bool (and (spanSafe n) (shapeOK n) (walkWF n)))
+(define-fun nodeOKList ((l Seq_Node) (n Int)) Bool (and (spanSafeList l n) (shapeOKList l n) (walkWFL l n)))
+; render properties are not walkable nodes of their own: Walk visits their name and value
+(define-fun propOK ((n Node)) Bool (and (spanSafe n) (shapeOK n) (walkWF (RenderProperty.Name n)) (walkWFopt (RenderProperty.Value n))))
+(define-fun propsOKList ((l Seq_Node) (n Int)) Bool (and (spanSafeList l n) (shapeOKList l n) (walkWFprops l n)))
